@@ -140,6 +140,43 @@ CLAIMS = {
             "failed lookup, or reviewed.",
             "Not decided: the index adjustment arithmetic (history property). Trusted: reviewed table, rustc front end.",
             "DESIGN.md section 2, C11"),
+    "C14": ("inventories with type-based exemption and reviewed tables: hash-order iteration sites, address accessors, "
+            "pointer-to-integer casts, ambient-input reads; impl inventory of identity types",
+            "Structural clauses only: every iteration over a std HashMap/HashSet with the randomly seeded default hasher "
+            "is a reviewed order-insensitive site (maps with StarlarkHasherBuilder exempt by type); ValueIdentity / "
+            "RawPointer / FrozenHeapPtr implement neither Ord nor Display; address accessors and pointer-to-integer "
+            "casts only in reviewed functions, none an observable-output body; clock/randomness/thread/env reads only "
+            "in profiling, timing and the serialization nonce.",
+            "Not decided: byte-identical transcripts across processes. A new benign site of an inventoried construct is "
+            "reported until reviewed (the stated K7 trade-off). Trusted: the reviewed tables.",
+            "DESIGN.md section 2, C14"),
+    "C16": ("K3 component coverage of every TypeMatcher::matches body + call-graph funnel reachability",
+            "Two clauses: every matcher struct's matches() consults each of its components; isinstance, InstrIsInstance, "
+            "InstrCheckType, InstrReturnCheckType, parameter/return checks all reach TypeCompiled::matches, which "
+            "dispatches through the type_matches_value vtable op, called from nowhere else.",
+            "Not decided: that each specialised matcher denotes the documented set. Trusted: rustc front end, svfacts, "
+            "call-graph model.",
+            "DESIGN.md section 2, C16"),
+    "C17": ("inventory of randomly seeded hash iteration inside typing/ and analysis/ (C14.R1 restricted)",
+            "One clause only ('gives the same diagnostics each time'): the 7 iterations over std HashMap/HashSet in the "
+            "type checker and lint analyses are reviewed order-insensitive sites.",
+            "Not decided: termination, soundness, absence of false positives. Trusted: reviewed table.",
+            "DESIGN.md section 2, C17"),
+    "C18": ("call-graph effect reachability from the profile recorders + who-may-call chain of the interpreter loop + "
+            "K9 arm analysis of enable_profile",
+            "Three clauses: the 7 profile recorders reach no effect sink (user call-back, mutation, slot write, print); "
+            "one interpreter (dispatch-for-execution only in step <- run_block <- Bc::run, instantiated with the "
+            "disabled or enabled callbacks only; the callback precedes dispatch and its error skips the instruction); "
+            "every heap profile mode sets disable_gc.",
+            "Not decided: breakpoint hit counts, variable views, stepping. Trusted: call-graph model, sink table.",
+            "DESIGN.md section 2, C18"),
+    "C20": ("unsafe impl Send/Sync inventory with cell writer sets + static inventory by type + atomic ordering "
+            "constant extraction and branch-sensitive dominance of dealloc",
+            "Structural clauses only: every unsynchronised cell in a type made Sync by unsafe impl has a reviewed "
+            "complete writer set; every non-Freeze static is of a race-free cell type or reviewed, no static mut; "
+            "Chunk::drop decrements with SeqCst/AcqRel and deallocates only when the previous count was 1.",
+            "Not decided: absence of data races under real interleavings. Trusted: reviewed tables, rustc Freeze query.",
+            "DESIGN.md section 2, C20"),
 }
 
 
